@@ -125,6 +125,7 @@ func checkC17(c *Ctx) {
 				[]ValAssume{{Name: sprintf("opts.SaltLength = %d", t.v), Match: saltLoad, Val: latInt(t.v)}}, "(*math/big.Int).BitLen", t.maximal)
 		}
 	}
+	checkDigestInfoPrefixes(c, p, "C17.exact")
 	cs := p.Func(tr, "", "CombineSignShares")
 	c.evalAcceptRule(p, "C17.threshold", "empty share list is refused", cs, map[string]lat{"shares": latSliceLen(0)}, nil, false)
 	c.guard(p, "C17.threshold", "combined signature is returned only after the self-check y^e == x", cs, GuardSpec{Args: map[string]lat{"shares": latNonEmpty}, Assumes: []Assume{calleeAssume(latInt(1), -1, "(*math/big.Int).Cmp")}})
